@@ -5,6 +5,7 @@ package argmapper
 
 import (
 	"fmt"
+	"go/token"
 	"reflect"
 	"strings"
 
@@ -141,7 +142,7 @@ func NewValueSet(vs []Value) (*ValueSet, error) {
 			names[name] = struct{}{}
 
 			sf = append(sf, reflect.StructField{
-				Name: fmt.Sprintf("V__Name_%d", i),
+				Name: namedFieldName(v.Name, i),
 				Type: v.Type,
 				Tag:  tag,
 			})
@@ -159,6 +160,21 @@ func NewValueSet(vs []Value) (*ValueSet, error) {
 	}
 
 	return newValueSetFromStruct(reflect.StructOf(sf))
+}
+
+// namedFieldName returns the name of the struct field that carries the named
+// value name in a generated struct. The field is called like the value
+// wherever that is possible. A value name that isn't usable as the name of an
+// exported field gets a numbered field instead; the value name itself is
+// always given by the tag.
+func namedFieldName(name string, i int) string {
+	field := strings.ToUpper(name)
+	if token.IsIdentifier(field) && token.IsExported(field) &&
+		strings.ToLower(field) == strings.ToLower(name) {
+		return field
+	}
+
+	return fmt.Sprintf("V__Name_%d", i)
 }
 
 func newValueSet(count int, get func(int) reflect.Type) (*ValueSet, error) {
